@@ -24,11 +24,11 @@ SACCT_STEPS = """#!/bin/bash
     %(first)s
     echo "${jobid}.batch|${status}|${start}|${end}|"
     if test "$status" == RUNNING; then
-        echo "${jobid}.extern|RUNNING|${start}|${end}|"
         echo "${jobid}.0|RUNNING|${start}|${end}|"
+        echo "${jobid}.extern|RUNNING|${start}|${end}|"
     else
-        echo "${jobid}.extern|COMPLETED|${start}|${end}|"
         echo "${jobid}.0|${status}|${start}|${end}|"
+        echo "${jobid}.extern|COMPLETED|${start}|${end}|"
     fi
     %(last)s
 done
